@@ -7,7 +7,7 @@
    facts used about it are the hypotheses below, each of which the check tests on every fragment pair
    of every run. *)
 From Coq Require Import ZArith QArith List Permutation.
-From PV Require Import Gen.DomainConst Gen.CloneConst Clone.Pairs Clone.PairsFacts Clone.PairsProofs Clone.PairsBatch Clone.PairsOrder Clone.PairsWitness Tie.CloneTie.
+From PV Require Import Gen.DomainConst Gen.CloneConst Clone.Pairs Clone.PairsFacts Clone.PairsProofs Clone.PairsBatch Clone.PairsOrder Clone.PairsWitness Clone.Walk Clone.WalkFacts Tie.CloneTie.
 Import ListNotations.
 Open Scope Z_scope.
 
@@ -16,6 +16,24 @@ Open Scope Z_scope.
 Theorem C08_decision_tables : clone_tables_agree = true /\ clone_tables_nonempty = true.
 Proof. exact clone_tables_agree_ok. Qed.
 Print Assumptions C08_decision_tables.
+
+(* which nodes are fragments at all (the candidate lists [cands] of the theorems below): every function, class or compound
+   statement in the tree that ConvertAST builds from a file for the comparison - through Children, Body, Orelse, Handlers and
+   Finalbody, i.e. also a definition inside an except handler or a finally block - is listed by the fragment walk
+   (extractFragmentsRecursive and its WithSource twin), and the walk lists only such nodes. The lists followed by the walk
+   and by ConvertAST are read from the Go source (Gen.CloneConst). Finding F36 (repaired): the walk did not follow
+   Handlers and Finalbody. *)
+Theorem C08_candidates_complete : forall root l sub, reach clone_tree_fields root (WNode l true sub) ->
+  In l (walk clone_walk_fields root) /\ In l (walk clone_walk_src_fields root).
+Proof. exact candidates_complete. Qed.
+Theorem C08_candidates_sound : forall root l, In l (walk clone_walk_fields root) ->
+  exists sub, reach clone_walk_fields root (WNode l true sub).
+Proof. exact candidates_sound. Qed.
+Example C08_candidates_example :
+  walk clone_walk_fields w_try = [(1, 20); (4, 10); (12, 20)] /\ walk [0; 1; 2]%nat w_try = [(1, 20)].
+Proof. exact handler_finally_example. Qed.
+Print Assumptions C08_candidates_complete.
+Print Assumptions C08_candidates_sound.
 
 Section C08.
 Variable sim : frag -> frag -> Q.        (* APTEDAnalyzer.ComputeSimilarity on the fragments' trees *)
